@@ -2,7 +2,7 @@ from .base import *
 
 ID = 'C03'
 THEOREMS = ['C03_spellings', 'C03_add_comm', 'C03_add_canon_carry', 'C03_add_zero_r', 'C03_add_zero_l',
-            'C03_add_total', 'C03_add_assoc']
+            'C03_add_total', 'C03_add_assoc', 'C03_direction']
 OWNED = {'AAdd', 'AMul', 'ARotate'}
 RULE = ('pairs/triples of canonical angles: remainders from threshold classes (0, 1e-15, 1e-10, pi/2-1e-10, pi/2-1e-15 at -3..+3 ulps), '
         'pair sums steered onto pi/2 +- {ulps, 1e-15, 1e-10}, exact fractions of a quarter turn, arbitrary; blades 0..8, 1000.., 10^6, 2^31+-1, 2^32+2, 2^40, random < 2^40; '
@@ -55,6 +55,7 @@ def generate(rng, tier):
 LEVEL_TEXT = ('Kernel-checked theorems about the Gallina model of Angle addition for ALL canonical angles: the nine spellings are one function, '
               'addition is bit-for-bit commutative (no hypothesis), preserves the canonical invariant with blade carry in {0,1}, has the zero angle as identity, '
               'and its total is the sum of totals within 1e-10 + 2^-51. The two associations of a triple differ by at most four addition tolerances (C03_add_assoc; the property text says two - four is what the per-step bound yields). '
+              'C03_direction (REAL pi): the sum points along dirR a + dirR b within 1e-10 + 2^-51 + 1e-16 (dirR x = blade*pi/2 + rem). '
               'The model is tied to the Rust code by a bit-exact correspondence on boundary-directed programs on every run.')
-LEVEL_NOTE = ('Trusted: Coq kernel + vm_compute; 4 classical/real-number axioms of the standard library; the hand-written model (validated bit-for-bit against the implementation on the cases of each run, not proved equal to it); '
+LEVEL_NOTE = ('Trusted: Coq kernel + vm_compute; 4 classical/real-number axioms of the standard library; plus the primitive-integer axioms (PrimInt63.*, Uint63.*_spec) that the Interval tactic uses for the two bounds on the real pi in PiBounds.v (direction theorems only); the hand-written model (validated bit-for-bit against the implementation on the cases of each run, not proved equal to it); '
               'harness, emitter and predicates. No libm function is involved in this property.')
